@@ -6,9 +6,53 @@
  */
 #include "rdsquashfs.h"
 
-static int print_name(const sqfs_tree_node_t *n, bool dont_escape)
+/*
+  Print a single token of a gensquashfs pack file. If it contains anything
+  that the parser treats specially (separators, quotes, the escape character)
+  or is empty, wrap it in quotes and escape '"' and '\\'.
+ */
+static void print_token(const char *prefix, const char *str)
 {
-	char *start, *ptr, *name;
+	const char *parts[2] = { prefix, str };
+	bool quote = true;
+	size_t i;
+
+	for (i = 0; i < 2; ++i) {
+		if (parts[i] != NULL && parts[i][0] != '\0')
+			quote = false;
+	}
+
+	for (i = 0; i < 2 && !quote; ++i) {
+		if (parts[i] != NULL && strpbrk(parts[i], " \t\"\\") != NULL)
+			quote = true;
+	}
+
+	if (quote)
+		fputc('"', stdout);
+
+	for (i = 0; i < 2; ++i) {
+		const char *ptr = parts[i];
+
+		if (ptr == NULL)
+			continue;
+
+		for (; *ptr != '\0'; ++ptr) {
+			if (quote && (*ptr == '"' || *ptr == '\\'))
+				fputc('\\', stdout);
+			fputc(*ptr, stdout);
+		}
+
+		if (i == 0)
+			fputc('/', stdout);
+	}
+
+	if (quote)
+		fputc('"', stdout);
+}
+
+static int print_name(const sqfs_tree_node_t *n, const char *prefix)
+{
+	char *name;
 	int ret;
 
 	ret = sqfs_tree_node_get_path(n, &name);
@@ -23,32 +67,7 @@ static int print_name(const sqfs_tree_node_t *n, bool dont_escape)
 		return -1;
 	}
 
-	if (dont_escape || (strchr(name, ' ') == NULL &&
-			    strchr(name, '"') == NULL)) {
-		fputs(name, stdout);
-	} else {
-		fputc('"', stdout);
-
-		ptr = strchr(name, '"');
-
-		if (ptr != NULL) {
-			start = name;
-
-			do {
-				fwrite(start, 1, ptr - start, stdout);
-				fputs("\\\"", stdout);
-				start = ptr + 1;
-				ptr = strchr(start, '"');
-			} while (ptr != NULL);
-
-			fputs(start, stdout);
-		} else {
-			fputs(name, stdout);
-		}
-
-		fputc('"', stdout);
-	}
-
+	print_token(prefix, name);
 	sqfs_free(name);
 	return 0;
 }
@@ -60,14 +79,20 @@ static void print_perm(const sqfs_tree_node_t *n)
 }
 
 static int print_simple(const char *type, const sqfs_tree_node_t *n,
-			const char *extra)
+			const char *extra, bool quote_extra)
 {
 	printf("%s ", type);
-	if (print_name(n, false))
+	if (print_name(n, NULL))
 		return -1;
 	print_perm(n);
-	if (extra != NULL)
-		printf(" %s", extra);
+	if (extra != NULL) {
+		fputc(' ', stdout);
+		if (quote_extra) {
+			print_token(NULL, extra);
+		} else {
+			fputs(extra, stdout);
+		}
+	}
 	fputc('\n', stdout);
 	return 0;
 }
@@ -84,22 +109,22 @@ int describe_tree(const sqfs_tree_node_t *root, const char *unpack_root)
 
 	switch (root->inode->base.mode & S_IFMT) {
 	case S_IFSOCK:
-		return print_simple("sock", root, NULL);
+		return print_simple("sock", root, NULL, false);
 	case S_IFLNK:
 		return print_simple("slink", root,
-				    (const char *)root->inode->extra);
+				    (const char *)root->inode->extra, true);
 	case S_IFIFO:
-		return print_simple("pipe", root, NULL);
+		return print_simple("pipe", root, NULL, false);
 	case S_IFREG:
 		if (unpack_root == NULL)
-			return print_simple("file", root, NULL);
+			return print_simple("file", root, NULL, false);
 
 		fputs("file ", stdout);
-		if (print_name(root, false))
+		if (print_name(root, NULL))
 			return -1;
 		print_perm(root);
-		printf(" %s/", unpack_root);
-		if (print_name(root, true))
+		fputc(' ', stdout);
+		if (print_name(root, unpack_root))
 			return -1;
 		fputc('\n', stdout);
 		break;
@@ -118,11 +143,11 @@ int describe_tree(const sqfs_tree_node_t *root, const char *unpack_root)
 		sprintf(buffer, "%c %u %u",
 			S_ISCHR(root->inode->base.mode) ? 'c' : 'b',
 			major(devno), minor(devno));
-		return print_simple("nod", root, buffer);
+		return print_simple("nod", root, buffer, false);
 	}
 	case S_IFDIR:
 		if (root->name[0] != '\0') {
-			if (print_simple("dir", root, NULL))
+			if (print_simple("dir", root, NULL, false))
 				return -1;
 		}
 
